@@ -566,7 +566,8 @@ def c01(tier):
         # Echo and Constant are leaves themselves (the Probe stands in for Echo)
         return [c for c in catalogue(n, positive=True) if c["k"] not in ("Add", "Subtract", "Multiply", "Divide", "Echo", "Constant")]
     L = 4 if tier == "quick" else 5
-    combos = [(3, 2)] if tier == "quick" else [(2, 3), (3, 2), (1, 3), (3, 1)]
+    # (outer window, inner window); window 1 is its own code path in several views (a queue that empties on eviction)
+    combos = [(3, 2), (1, 2)] if tier == "quick" else [(2, 3), (3, 2), (1, 3), (3, 1), (1, 2), (2, 1)]
     for nb, na in combos:
         outs = unary(nb)
         for i in range(0, len(outs), 4):
